@@ -2,6 +2,12 @@ import A2Verif.Lemmas.FsFatAttr
 import A2Verif.Lemmas.FsFatDel
 import A2Verif.Lemmas.FsFatExample
 import A2Verif.Lemmas.FsFatFormat
+import A2Verif.Lemmas.FsFatPutStep
+import A2Verif.Lemmas.FsFatRetype
+import A2Verif.Lemmas.FsFatSubDir
+import A2Verif.Props.C01
+import A2Verif.Props.C04
+import A2Verif.Props.C19
 import A2Verif.Props.C02
 import A2Verif.Props.C03
 import A2Verif.Props.C05
@@ -15,25 +21,32 @@ import A2Verif.Props.C05
 * the FAT12 entry algebra: an entry reads back, writing one entry changes no other (`getCluster_setCluster_same/_other`);
 * allocation: `num_free_blocks` counts, `get_available_block` is a sound and complete first fit (`avail_sound`,
   `avail_complete`, `avail_none_iff`); the cluster loop of `write_file` never panics, takes free clusters only,
-  touches no other unit and no other FAT entry, lowers the free count by exactly the chunk count (`writeLoop_ok`);
+  touches no other unit and no other FAT entry, lowers the free count by exactly the chunk count (`writeLoop_ok`), builds
+  a link chain ending in an end mark and stores chunk `j` in its `j`-th cluster (`writeLoop_chain`);
   the de-allocation walk of `delete` only zeroes entries (`deallocateChain_only_frees`);
 * C04 acceptance for the root directory (`fat_fits_is_accepted`);
+* `format` establishes the invariant for every FAT12 BPB with 512-byte sectors (`format_establishes_inv`);
 * under the invariant `Inv` the total reader reads the image as the well-formed, leak-free `volOf d`
-  (`inv_reads_well_formed`), and the **attribute operations `lock` / `unlock` of a root-level file, observed as the
-  harness observes them (run, then `get_img()`), preserve `Inv` and are steps the abstract specification allows**
-  (`lock_step`, `unlock_step`), and so does **`delete` of a root-level file** (`delete_step`: the record disappears, its
-  clusters become free, every other record in the root and below is read exactly as before), hence so is every history of
-  them (`attr_history_refines`), and the history-level
-  theorems of C02, C03, C05 hold for such histories (`fat_attr_*`).
+  (`inv_reads_well_formed`), and **every root-level file operation, observed as the harness observes it (run, then
+  `get_img()`), accepted or refused, preserves `Inv` and is a step the abstract specification allows**: `put_step`,
+  `delete_step`, `rename_step`, `lock_step`, `unlock_step`, `retype_step` (`fop_step`); hence every history of them is a valid
+  trace (`history_refines`; directories may exist in the volume, they are just not the targets of delete / rename /
+  lock / unlock), and the history-level theorems of C01–C05 and C19 hold for the concrete model (`fat_*`).
+* the name correspondence in both directions: found by `get_file` ⇒ listed under `absPath p` (`entName_of_key`), not found ⇒
+  not listed (`not_listed`), a freshly packed name is well named (`fresh_name`).
 
-**Partial** (statement in the docstring of `step_refines_partial`): the refinement of `put`, `rename`,
-`mkdir` and of operations below the root, and `format_establishes_inv`, are not proved; their byte-exact agreement
-with the real code is checked on every sampled step by the tie, and the real steps are checked against the same
-specification by the group's reader tie.
+**Hypotheses of `put_step` that the code as written needs** (`PutArg`): every chunk `0 ..< end` present, no chunk longer than
+`chunk_len`, length ≤ `end · chunk_len`.  At each excluded point the real code misbehaves (clusters leaked by a refused put;
+silent truncation; an entry whose size exceeds its chain); `putRepaired_step` shows the proposed repair needs none of them.
+
+**Partial** (statement in the docstring of `step_refines_partial`): `mkdir`, operations below the root, and `delete` /
+`rename` / `lock` / `unlock` of a directory are not proved; their byte-exact agreement with the real code is checked on every
+sampled step by the tie, and the real steps are checked against the same specification by the group's reader tie.
 -/
 namespace A2Verif.FsFat
 open A2Verif A2Verif.Fs.Fat A2Verif.Read.FatT
-open A2Verif.FsDos (replaced removed stepOk_lock_replaced stepOk_unlock_replaced stepOk_refused_same stepOk_delete_removed)
+open A2Verif.FsDos (replaced removed inserted stepOk_lock_replaced stepOk_unlock_replaced stepOk_refused_same stepOk_delete_removed
+  stepOk_put_inserted stepOk_rename_replaced stepOk_retype_replaced)
 
 theorem testBit0 (x : Nat) : x % 2 = (if x.testBit 0 then 1 else 0) := by
   have := bit_of_testBit x 0
@@ -133,6 +146,204 @@ theorem attr_keeps_flat {d d' : Disk} {p : Bytes} {set clear : Option Nat} {res 
     · exact hflat r (by rw [hv]; simp [h])
     · subst h; exact hd
     · exact hflat r (by rw [hv]; simp [h])
+
+/-- **`put` refines** (C01 content, C02 frame, C03, C04 free units only, C05 listing): for a state satisfying the
+invariant, a root-level path in any spelling of case, a two-byte clock, and a file image that is well formed for this
+volume (`PutArg`: every chunk `0 ..< end` present, none longer than a cluster, length not beyond the chunks — at each of
+the three excluded points the real code misbehaves, see `design/FsFat.md`), `put` followed by the flush preserves the
+invariant and is a step the abstract specification allows — whether it is accepted or refused, for **every** refusal
+(wrong file system, chunk length, label/directory attribute, invalid name, unreadable directory, duplicate name, root
+directory full, metadata vectors too short, not enough free clusters): refused without any change; accepted: exactly one
+new record under `absPath p`, a file owning previously free clusters, whose chunks begin with the stored chunks and whose
+length is the file image's; every other record, in the root and below, is read exactly as before -/
+theorem put_step {d d' : Disk} {fi : FImg} {now : Stamp} {res : R Nat} (inv : Inv d) (a : RootArg fi.fullPath)
+    (hs : StampOk now) (pa : PutArg fi) (h : runFlush (put fi now) d = (res, d')) :
+    Inv d' ∧ stepOk fatParams (volOf d) (.put (absPath fi.fullPath) (chunksOf fi) (le32 fi.eof 0) 0 0) (okB res) (volOf d') = true := by
+  have hwf := (inv_reads_well_formed inv).2.1
+  rcases put_step_core inv a hs pa h with ⟨er, h1, h2⟩ |
+    ⟨⟨n, h1⟩, inv', F1, F2, rec, free', hv, hp, hd, hgn, hgf, hnd, hfree, hpn, hc, hcm, he, hvol⟩
+  · subst h1 h2
+    exact ⟨inv, stepOk_refused_same hwf _⟩
+  · subst h1
+    refine ⟨inv', ?_⟩
+    rw [hvol, ← hp]
+    exact stepOk_put_inserted hv hwf hgn hgf hnd hfree hpn hc hd hcm he (fun h => by cases h) (fun h => by cases h)
+
+/-- **`rename` refines** (C02, C05, C19): for a state satisfying the invariant and a root-level name (any case) that does not
+denote a directory, `rename(p, q)` followed by the flush preserves the invariant and is a step the specification allows:
+refused without any change (invalid new name, source missing, new name in use — also in another spelling of case or
+padding —, source read-only), or exactly one record changes its path to `absPath q`, keeping content, length, clusters and
+protection; every other record is read as before -/
+theorem rename_step {d d' : Disk} {p q : Bytes} {res : R Unit} (inv : Inv d) (a : RootArg p)
+    (hfile : ∀ rec, (volOf d).lookup (absPath p) = some rec → rec.isDir = false)
+    (h : runFlush (rename p q) d = (res, d')) :
+    Inv d' ∧ stepOk fatParams (volOf d) (.rename (absPath p) (absPath q)) (okB res) (volOf d') = true := by
+  have hwf := (inv_reads_well_formed inv).2.1
+  rcases rename_step_core inv a hfile h with ⟨er, h1, h2⟩ | ⟨h1, inv', F1, F2, rec, hv, hp, hd, hl, hev, hpn, hvol⟩
+  · subst h1 h2
+    exact ⟨inv, stepOk_refused_same hwf _⟩
+  · subst h1
+    refine ⟨inv', ?_⟩
+    rw [hvol, ← hp]
+    have hl' : (recRen rec (absPath q) (rec.access ||| 32)).locked = rec.locked := by
+      rw [hl]
+      show decide ((rec.access ||| 32) % 2 = 1) = false
+      have := or32_bit rec.access 0 (by omega)
+      simp only [Nat.pow_zero, Nat.div_one] at this
+      rw [this]
+      exact decide_eq_false (by omega)
+    exact stepOk_rename_replaced (g := recRen rec (absPath q) (rec.access ||| 32)) hv hwf hpn hl hl' rfl rfl rfl rfl
+
+/-- **`retype` refines** (C02): for a state satisfying the invariant and a root-level name, `retype(p, sys|reg|hid|vis|other)`
+followed by the flush preserves the invariant and is a step the specification allows: refused without a change (missing, a
+directory, an unknown type — which is every type string the harness uses), or the system/hidden bit of exactly one
+record's attribute byte changes, content, length, clusters and path being kept -/
+theorem retype_step {d d' : Disk} {p : Bytes} {t : NewType} {res : R Unit} (inv : Inv d) (a : RootArg p)
+    (h : runFlush (retype p t) d = (res, d')) :
+    Inv d' ∧ stepOk fatParams (volOf d) (.retype (absPath p)) (okB res) (volOf d') = true := by
+  have hwf := (inv_reads_well_formed inv).2.1
+  obtain ⟨f, c⟩ := inv.coh
+  have g := inv.geo
+  rcases retype_eq g a t with ⟨er, hrun⟩ | ⟨set, clear, E1, e, E2, nm, ty, hm, heq, hE, hE1, hin, hn, hk, hbit⟩
+  · unfold runFlush at h
+    rw [hrun] at h
+    simp only [flush_noop g c] at h
+    injection h with h1 h2
+    subst h1 h2
+    exact ⟨inv, stepOk_refused_same hwf _⟩
+  · rw [inv.lf] at hin
+    have hfile := hfile_of_entry inv hE hE1 hin hn hk hbit
+    have h' : runFlush (attrOp p set clear) d = (res, d') := by
+      unfold runFlush at h ⊢
+      rw [← heq]; exact h
+    have hmasks : (∀ m, set = some m → m.testBit 3 = false ∧ m.testBit 4 = false) ∧
+        (∀ m, clear = some m → (255 - m).testBit 3 = true ∧ (255 - m).testBit 4 = true) := by
+      cases t with
+      | other => simp [retypeMasks] at hm
+      | sys =>
+        simp only [retypeMasks, Option.some.injEq, Prod.mk.injEq] at hm
+        obtain ⟨rfl, rfl⟩ := hm
+        exact ⟨fun m hm' => (by injection hm' with hm'; subst hm'; decide), fun m hm' => (by cases hm')⟩
+      | reg =>
+        simp only [retypeMasks, Option.some.injEq, Prod.mk.injEq] at hm
+        obtain ⟨rfl, rfl⟩ := hm
+        exact ⟨fun m hm' => (by cases hm'), fun m hm' => (by injection hm' with hm'; subst hm'; decide)⟩
+      | hid =>
+        simp only [retypeMasks, Option.some.injEq, Prod.mk.injEq] at hm
+        obtain ⟨rfl, rfl⟩ := hm
+        exact ⟨fun m hm' => (by injection hm' with hm'; subst hm'; decide), fun m hm' => (by cases hm')⟩
+      | vis =>
+        simp only [retypeMasks, Option.some.injEq, Prod.mk.injEq] at hm
+        obtain ⟨rfl, rfl⟩ := hm
+        exact ⟨fun m hm' => (by cases hm'), fun m hm' => (by injection hm' with hm'; subst hm'; decide)⟩
+    rcases attr_step inv a set clear hmasks.1 hmasks.2 hfile h' with ⟨er, h1, h2⟩ | ⟨h1, inv', F1, F2, rec, hv, hp, _, hvol⟩
+    · subst h1 h2
+      exact ⟨inv, stepOk_refused_same hwf _⟩
+    · subst h1
+      refine ⟨inv', ?_⟩
+      rw [hvol, ← hp]
+      exact stepOk_retype_replaced (g := recAttr rec (newAttrO rec.access set clear)) hv hwf rfl rfl rfl rfl rfl
+
+/-! ## the proposed repair of `put` (`proposed_fixes/fat-put-validates-file-image.diff`) closes the gap -/
+
+/-- what the repaired `put` checks before it touches anything: every chunk `0 ..< end` is present and no longer than
+`chunk_len`, and the four size bytes do not exceed `end · chunk_len` -/
+def storable (f : FImg) : Bool :=
+  (List.range f.end).all (fun k => match f.chunks.lookup k with
+    | some data => decide (data.length ≤ f.chunkLen)
+    | none => false) &&
+  (decide (f.eof.length < 4) || decide (le32 f.eof 0 ≤ f.end * f.chunkLen))
+
+/-- `put` with the proposed repair: the new refusal comes after the three existing ones and before `prepare_to_write` -/
+def putRepaired (f : FImg) (now : Stamp) : M Nat := fun d =>
+  if f.fsOk && decide (f.chunkLen = d.bpb.blockSize) && !f.dirOrLabel && !storable f then (.error .writeFault, d) else put f now d
+
+/-- **the repaired `put` refines for every file image**: no hypothesis on the chunks or the length is left -/
+theorem putRepaired_step {d d' : Disk} {fi : FImg} {now : Stamp} {res : R Nat} (inv : Inv d) (a : RootArg fi.fullPath)
+    (hs : StampOk now) (h : runFlush (putRepaired fi now) d = (res, d')) :
+    Inv d' ∧ stepOk fatParams (volOf d) (.put (absPath fi.fullPath) (chunksOf fi) (le32 fi.eof 0) 0 0) (okB res) (volOf d') = true := by
+  have hwf := (inv_reads_well_formed inv).2.1
+  obtain ⟨f, c⟩ := inv.coh
+  have g := inv.geo
+  by_cases hck : (fi.fsOk && decide (fi.chunkLen = d.bpb.blockSize) && !fi.dirOrLabel && !storable fi) = true
+  · unfold runFlush putRepaired at h
+    simp only [hck, if_true, flush_noop g c] at h
+    injection h with h1 h2
+    subst h1 h2
+    exact ⟨inv, stepOk_refused_same hwf _⟩
+  · have hput : runFlush (put fi now) d = (res, d') := by
+      unfold runFlush putRepaired at h
+      unfold runFlush
+      simp only [hck, Bool.false_eq_true, if_false] at h
+      exact h
+    -- either one of the earlier refusals applies, or the file image is storable
+    by_cases hst : storable fi = true
+    · by_cases hm : MetaOk fi
+      · have pa : PutArg fi := by
+          unfold storable at hst
+          simp only [Bool.and_eq_true, List.all_eq_true, List.mem_range, Bool.or_eq_true, decide_eq_true_eq] at hst
+          refine { noHole := ?_, fits := ?_, eofFits := ?_ }
+          · intro k hk
+            have := hst.1 k hk
+            cases hl : fi.chunks.lookup k with
+            | none => rw [hl] at this; cases this
+            | some _ => rfl
+          · intro k hk
+            have := hst.1 k hk
+            unfold chunkAt
+            cases hl : fi.chunks.lookup k with
+            | none => rw [hl] at this; cases this
+            | some data => rw [hl] at this; simpa using this
+          · rcases hst.2 with h4 | h4
+            · unfold MetaOk at hm; omega
+            · exact h4
+        exact put_step inv a hs pa hput
+      · -- metadata vectors too short: `put` is refused (or panics) before anything is written, whatever the chunks are
+        have : ∃ er, put fi now d = (.error er, d) := by
+          have hh : ∀ k, k < fi.end → (fi.chunks.lookup k).isSome = true := by
+            unfold storable at hst
+            simp only [Bool.and_eq_true, List.all_eq_true, List.mem_range] at hst
+            intro k hk
+            have := hst.1 k hk
+            cases hl : fi.chunks.lookup k with
+            | none => rw [hl] at this; cases this
+            | some _ => rfl
+          rcases put_run g c a hs hh with h1 | ⟨_, _, _, _, _, _, _, _, _, _, _, _, _, _, _, _, _, _, hm', _⟩
+          · exact h1
+          · exact absurd hm' hm
+        obtain ⟨er, hrun⟩ := this
+        unfold runFlush at hput
+        rw [hrun] at hput
+        simp only [flush_noop g c] at hput
+        injection hput with h1 h2
+        subst h1 h2
+        exact ⟨inv, stepOk_refused_same hwf _⟩
+    · -- not storable and the new check did not fire: one of the three earlier refusals did
+      have : ∃ er, put fi now d = (.error er, d) := by
+        have hst' : storable fi = false := by simpa using hst
+        simp only [hst', Bool.not_false, Bool.and_true, Bool.and_eq_true, decide_eq_true_eq, Bool.not_eq_true', not_and] at hck
+        unfold put
+        by_cases h1 : fi.fsOk = true
+        · by_cases h2 : fi.chunkLen = d.bpb.blockSize
+          · have h3 : fi.dirOrLabel = true := by
+              have := hck ⟨h1, h2⟩
+              simpa using this
+            simp only [h1, Bool.not_true, Bool.false_eq_true, if_false, M_bind_apply, M.get, h2, ne_eq, not_true_eq_false, h3, if_true,
+              M_fail_apply]
+            exact ⟨_, rfl⟩
+          · simp only [h1, Bool.not_true, Bool.false_eq_true, if_false, M_bind_apply, M.get]
+            rw [if_pos h2]
+            exact ⟨_, rfl⟩
+        · have : fi.fsOk = false := by simpa using h1
+          simp only [this, Bool.not_false, if_true, M_fail_apply]
+          exact ⟨_, rfl⟩
+      obtain ⟨er, hrun⟩ := this
+      unfold runFlush at hput
+      rw [hrun] at hput
+      simp only [flush_noop g c] at hput
+      injection hput with h1 h2
+      subst h1 h2
+      exact ⟨inv, stepOk_refused_same hwf _⟩
 
 /-! ## `format` -/
 
@@ -259,31 +470,354 @@ theorem fat_attr_listing_is_history_fold {d : Disk} (h : Inv d) (fl : Flat d) {o
   rw [heq] at this
   exact ⟨this, wfB_paths_nodup (inv_reads_well_formed hfin).2.1⟩
 
-/-- **Refinement, one step — what is proved** (`lock`, `unlock`, `delete` of root-level files on a volume without
-directories in the root… more precisely: whose reading lists no directory).
+/-- **Refinement, one step — the three-operation form kept for the record** (`lock`, `unlock`, `delete` of root-level files
+on a volume whose reading lists no directory); the general root-level statement is `fop_step` / `history_refines`.
 
 The full statement, which is *not* proved, reads: for every operation `op` of the concrete model (`put`, `delete`,
 `rename`, `lock`, `unlock`, `retype`, `mkdir`, any path) and every state `d` with `Inv d`,
-`runFlush op d = (res, d') → Inv d' ∧ stepOk fatParams (volOf d) (abs op) (okB res) (volOf d')`, and
-`format … = (ok, d') → Inv d'`.  Missing: (1) the converse name correspondence (a path the reader lists is found by
-`get_file`), needed for the "target was absent" conditions of `put`/`rename`/`mkdir`; (2) `NameGood` of a freshly packed
-name (`string_to_file_name`), needed for `put`, `rename`, `mkdir`; (3) for `put`: that the chain `write_file` builds is the
-chain the reader follows and holds the chunks (the concrete-level half is `writeLoop_ok`: free clusters only, nothing
-else touched, free count); (4) the walk below the root (`goto_path` through sub-directories,
-`writeback_directory_entry` along a cluster chain, `expand_directory`); (5) the run of `format` (fill loop, opening and
-repairing the all-zero FAT).  For these the correspondence rests on the sampled ties alone.  (`retype` of a FAT file
-with the type strings the harness uses is always refused by a2kit; `sys/reg/hid/vis` are covered by `attr_step`.) -/
+`runFlush op d = (res, d') → Inv d' ∧ stepOk fatParams (volOf d) (abs op) (okB res) (volOf d')`.  Proved: all six file
+operations on root-level paths (`fop_step`), and `format` (`format_establishes_inv`).  Missing: `mkdir`; the walk below the
+root (`goto_path` through sub-directories, `writeback_directory_entry` along a cluster chain, `expand_directory`); `delete` /
+`rename` / `lock` / `unlock` whose target is a directory (the reader reports no protection flag for a directory, and the
+specification's `rename` is for files).  For these the correspondence rests on the sampled ties alone. -/
 theorem step_refines_partial {d : Disk} (inv : Inv d) (fl : Flat d) (op : Op) (a : RootArg op.path) :
     Inv (op.run d).2 ∧ stepOk fatParams (volOf d) op.abs (op.run d).1 (volOf (op.run d).2) = true :=
   ⟨(op_step inv fl op a).1, (op_step inv fl op a).2.2⟩
 
-/-! ## non-vacuity: a state built by the model itself, and a history on it, checked in the kernel -/
+/-! ## histories of all root-level file operations: put, delete, rename, lock, unlock, retype -/
+
+inductive FOp where
+  | put (fi : FImg) (now : Stamp)
+  | delete (p : Bytes)
+  | rename (p q : Bytes)
+  | lock (p : Bytes)
+  | unlock (p : Bytes)
+  | retype (p : Bytes) (t : NewType)
+
+/-- run one operation as the harness observes it (run, then `get_img()`) -/
+def FOp.run (d : Disk) : FOp → Bool × Disk
+  | .put fi now => (okB (runFlush (Fs.Fat.put fi now) d).1, (runFlush (Fs.Fat.put fi now) d).2)
+  | .delete p => (okB (runFlush (Fs.Fat.delete p) d).1, (runFlush (Fs.Fat.delete p) d).2)
+  | .rename p q => (okB (runFlush (Fs.Fat.rename p q) d).1, (runFlush (Fs.Fat.rename p q) d).2)
+  | .lock p => (okB (runFlush (Fs.Fat.lock p) d).1, (runFlush (Fs.Fat.lock p) d).2)
+  | .unlock p => (okB (runFlush (Fs.Fat.unlock p) d).1, (runFlush (Fs.Fat.unlock p) d).2)
+  | .retype p t => (okB (runFlush (Fs.Fat.retype p t) d).1, (runFlush (Fs.Fat.retype p t) d).2)
+
+/-- the operation as the abstract specification sees it -/
+def FOp.abs : FOp → FsOp
+  | .put fi _ => .put (absPath fi.fullPath) (chunksOf fi) (le32 fi.eof 0) 0 0
+  | .delete p => .delete (absPath p)
+  | .rename p q => .rename (absPath p) (absPath q)
+  | .lock p => .lock (absPath p)
+  | .unlock p => .unlock (absPath p)
+  | .retype p _ => .retype (absPath p)
+
+/-- the conditions on the arguments that do not depend on the state: a root-level path; for `put` a two-byte clock and a
+well-formed file image -/
+def FOp.StaticOk : FOp → Prop
+  | .put fi now => RootArg fi.fullPath ∧ StampOk now ∧ PutArg fi
+  | .delete p => RootArg p
+  | .rename p _ => RootArg p
+  | .lock p => RootArg p
+  | .unlock p => RootArg p
+  | .retype p _ => RootArg p
+
+/-- the path whose record must not be a directory (`delete`, `rename`, `lock`, `unlock` of a directory are outside the
+root-level file operations: they belong to the operations on directories) -/
+def FOp.fileTarget : FOp → Option Bytes
+  | .put _ _ => none
+  | .delete p => some (absPath p)
+  | .rename p _ => some (absPath p)
+  | .lock p => some (absPath p)
+  | .unlock p => some (absPath p)
+  | .retype _ _ => none
+
+def FOp.ArgOk (d : Disk) (op : FOp) : Prop :=
+  op.StaticOk ∧ ∀ p, op.fileTarget = some p → ∀ rec, (volOf d).lookup p = some rec → rec.isDir = false
+
+/-- every operation of the history has admissible arguments in the state it is applied to: directories may be listed
+anywhere in the volume, they are just not the targets -/
+def Admissible : Disk → List FOp → Prop
+  | _, [] => True
+  | d, op :: ops => op.ArgOk d ∧ Admissible (op.run d).2 ops
+
+/-- **Refinement, one step, all root-level file operations** -/
+theorem fop_step {d : Disk} (inv : Inv d) (op : FOp) (ha : op.ArgOk d) :
+    Inv (op.run d).2 ∧ stepOk fatParams (volOf d) op.abs (op.run d).1 (volOf (op.run d).2) = true := by
+  obtain ⟨hs, hf⟩ := ha
+  cases op with
+  | put fi now => exact put_step inv hs.1 hs.2.1 hs.2.2 (prod_eta _)
+  | delete p => exact delete_step inv hs (hf _ rfl) (prod_eta _)
+  | rename p q => exact rename_step inv hs (hf _ rfl) (prod_eta _)
+  | lock p => exact lock_step inv hs (hf _ rfl) (prod_eta _)
+  | unlock p => exact unlock_step inv hs (hf _ rfl) (prod_eta _)
+  | retype p t => exact retype_step inv hs (prod_eta _)
+
+def ftrace : Disk → List FOp → List Step
+  | _, [] => []
+  | d, op :: ops => ⟨op.abs, (op.run d).1, volOf (op.run d).2⟩ :: ftrace (op.run d).2 ops
+
+def ffinal : Disk → List FOp → Disk
+  | d, [] => d
+  | d, op :: ops => ffinal (op.run d).2 ops
+
+/-- **Refinement, histories** (C01–C05, C19): every history of `put`, `delete`, `rename`, `lock`, `unlock`, `retype` of
+root-level files — accepted or refused, in any interleaving, directories being allowed to exist in the volume — started
+from a state that satisfies the invariant is a valid trace of the abstract specification; the invariant holds at the
+end and the final reading is the reading of the final image -/
+theorem history_refines : ∀ (ops : List FOp) {d : Disk}, Inv d → Admissible d ops →
+    validFrom fatParams (volOf d) (ftrace d ops) ∧ Inv (ffinal d ops) ∧
+    finalVol (volOf d) (ftrace d ops) = volOf (ffinal d ops) := by
+  intro ops
+  induction ops with
+  | nil => intro d h _; exact ⟨trivial, h, rfl⟩
+  | cons op ops ih =>
+    intro d h ha
+    obtain ⟨h1, h2⟩ := fop_step h op ha.1
+    obtain ⟨x, y, z⟩ := ih h1 ha.2
+    refine ⟨⟨h2, x⟩, y, ?_⟩
+    show finalVol (volOf d) (⟨op.abs, (op.run d).1, volOf (op.run d).2⟩ :: ftrace (op.run d).2 ops) = _
+    rw [finalVol_cons]
+    exact z
+
+/-- every state of such a history satisfies the invariant -/
+theorem history_inv : ∀ (ops : List FOp) {d : Disk}, Inv d → Admissible d ops → ∀ k, Inv (ffinal d (ops.take k)) := by
+  intro ops
+  induction ops with
+  | nil => intro d h _ k; simpa [ffinal] using h
+  | cons op ops ih =>
+    intro d h ha k
+    cases k with
+    | zero => simpa [ffinal] using h
+    | succ k => exact ih (fop_step h op ha.1).1 ha.2 k
+
+/-- a root-level file operation keeps a volume free of directories -/
+theorem fop_keeps_flat {d : Disk} (inv : Inv d) (fl : Flat d) (op : FOp) (hs : op.StaticOk) : Flat (op.run d).2 := by
+  have hfile : ∀ p rec, (volOf d).lookup p = some rec → rec.isDir = false := fun p rec hl => fl rec (lookup_some hl).1
+  have keep2 : ∀ {F1 F2 : List FileRec} {rec : FileRec}, (volOf d).files = F1 ++ rec :: F2 → ∀ r ∈ F1 ++ F2, r.isDir = false := by
+    intro F1 F2 rec hv r hr
+    rcases List.mem_append.1 hr with h | h
+    · exact fl r (by rw [hv]; simp [h])
+    · exact fl r (by rw [hv]; simp [h])
+  cases op with
+  | put fi now =>
+    rcases put_step_core inv hs.1 hs.2.1 hs.2.2 (prod_eta _) with ⟨_, _, h2⟩ | ⟨_, _, F1, F2, rec, free', hv, _, hd, _, _, _, _, _, _, _, _, hvol⟩
+    · show Flat (runFlush (Fs.Fat.put fi now) d).2
+      rw [h2]; exact fl
+    · intro r hr
+      have hr' : r ∈ (volOf (runFlush (Fs.Fat.put fi now) d).2).files := hr
+      rw [hvol] at hr'
+      have : r ∈ F1 ++ rec :: F2 := hr'
+      simp only [List.mem_append, List.mem_cons] at this
+      rcases this with h | h | h
+      · exact fl r (by rw [hv]; simp [h])
+      · rw [h]; exact hd
+      · exact fl r (by rw [hv]; simp [h])
+  | delete p => exact delete_keeps_flat inv hs fl (prod_eta _)
+  | rename p q =>
+    rcases rename_step_core inv hs (hfile _) (prod_eta _) with ⟨_, _, h2⟩ | ⟨_, _, F1, F2, rec, hv, _, hd, _, _, _, hvol⟩
+    · show Flat (runFlush (Fs.Fat.rename p q) d).2
+      rw [h2]; exact fl
+    · intro r hr
+      have hr' : r ∈ (volOf (runFlush (Fs.Fat.rename p q) d).2).files := hr
+      rw [hvol] at hr'
+      have : r ∈ F1 ++ recRen rec (absPath q) (rec.access ||| 32) :: F2 := hr'
+      simp only [List.mem_append, List.mem_cons] at this
+      rcases this with h | h | h
+      · exact fl r (by rw [hv]; simp [h])
+      · rw [h]; exact hd
+      · exact fl r (by rw [hv]; simp [h])
+  | lock p =>
+    exact attr_keeps_flat (set := some READ_ONLY) (clear := none) inv hs (by intro m hm; injection hm with hm; subst hm; decide)
+      (by intro m hm; cases hm) fl (by rw [← lock_eq]; exact prod_eta _)
+  | unlock p =>
+    exact attr_keeps_flat (set := none) (clear := some READ_ONLY) inv hs (by intro m hm; cases hm)
+      (by intro m hm; injection hm with hm; subst hm; decide) fl (by rw [← unlock_eq]; exact prod_eta _)
+  | retype p t =>
+    have hst := retype_step inv hs (t := t) (prod_eta _)
+    have hold := (inv_reads_well_formed inv).2.1
+    -- the listing of directories is a function of the records; `retype` keeps `isDir` of every record
+    intro r hr
+    by_cases hok : (FOp.run d (.retype p t)).1 = true
+    · have hso : stepOk fatParams (volOf d) (.retype (absPath p)) true (volOf (FOp.run d (.retype p t)).2) = true := by
+        have := hst.2
+        have e : okB (runFlush (Fs.Fat.retype p t) d).1 = true := hok
+        rw [e] at this
+        exact this
+      obtain ⟨⟨f0, g0, hf0, hg0, _, _, _, hd0⟩, hby⟩ := stepOk_retype hso
+      by_cases hrp : r.path = absPath p
+      · have nd := wfB_paths_nodup (stepOk_wf hso)
+        have : (volOf (FOp.run d (.retype p t)).2).lookup r.path = some r := find_path_of_mem nd hr
+        rw [hrp, hg0] at this
+        injection this with this
+        rw [← this, hd0]
+        exact fl f0 (lookup_some hf0).1
+      · have hmem : r ∈ without (volOf (FOp.run d (.retype p t)).2).files [absPath p] := by
+          rw [without_mem]; exact ⟨hr, by simpa using hrp⟩
+        obtain ⟨_, hb2⟩ := sameFiles_iff.1 hby
+        have := hb2 r hmem
+        obtain ⟨r0, hr0⟩ := Option.isSome_iff_exists.mp this
+        have hr0' := find_path_some hr0
+        obtain ⟨hb1, _⟩ := sameFiles_iff.1 hby
+        obtain ⟨g1, hg1, hs1⟩ := hb1 r0 hr0'.1
+        have hr0m : r0 ∈ (volOf d).files := (without_mem.1 hr0'.1).1
+        have hr0d := fl r0 hr0m
+        have hg1e := sameRec_file hr0d hs1
+        have nd' := FsDos.without_nodup (wfB_paths_nodup (stepOk_wf hso)) [absPath p]
+        have hrl : (without (volOf (FOp.run d (.retype p t)).2).files [absPath p]).find? (·.path == r0.path) = some r := by
+          rw [hr0'.2]
+          exact find_path_of_mem nd' hmem
+        rw [hrl] at hg1
+        injection hg1 with hg1
+        rw [hg1, hg1e]
+        exact hr0d
+    · have hso : stepOk fatParams (volOf d) (.retype (absPath p)) false (volOf (FOp.run d (.retype p t)).2) = true := by
+        have := hst.2
+        have e : okB (runFlush (Fs.Fat.retype p t) d).1 = false := Bool.eq_false_iff.mpr hok
+        rw [e] at this
+        exact this
+      have hsf := stepOk_refused hso
+      obtain ⟨_, hb2⟩ := sameFiles_iff.1 hsf
+      have := hb2 r hr
+      obtain ⟨r0, hr0⟩ := Option.isSome_iff_exists.mp this
+      have hr0' := find_path_some hr0
+      obtain ⟨hb1, _⟩ := sameFiles_iff.1 hsf
+      obtain ⟨g1, hg1, hs1⟩ := hb1 r0 hr0'.1
+      have hr0d := fl r0 hr0'.1
+      have hg1e := sameRec_file hr0d hs1
+      have nd' := wfB_paths_nodup (stepOk_wf hso)
+      have hrl : (volOf (FOp.run d (.retype p t)).2).files.find? (·.path == r0.path) = some r := by
+        rw [hr0'.2]
+        exact find_path_of_mem nd' hr
+      rw [hrl] at hg1
+      injection hg1 with hg1
+      rw [hg1, hg1e]
+      exact hr0d
+
+/-- on a volume without directories the state-dependent side condition is void -/
+theorem admissible_of_flat : ∀ (ops : List FOp) {d : Disk}, Inv d → Flat d → (∀ op ∈ ops, op.StaticOk) → Admissible d ops := by
+  intro ops
+  induction ops with
+  | nil => intro _ _ _ _; trivial
+  | cons op ops ih =>
+    intro d inv fl hs
+    have ha : op.ArgOk d := ⟨hs op (by simp), fun p _ rec hl => fl rec (lookup_some hl).1⟩
+    exact ⟨ha, ih (fop_step inv op ha).1 (fop_keeps_flat inv fl op (hs op (by simp))) (fun o ho => hs o (by simp [ho]))⟩
+
+/-! ### the history-level properties for the concrete FAT model -/
+
+theorem mem_ftrace : ∀ (ops : List FOp) {d : Disk} {s : Step}, s ∈ ftrace d ops → ∃ op ∈ ops, s.op = op.abs := by
+  intro ops
+  induction ops with
+  | nil => intro d s h; cases h
+  | cons op ops ih =>
+    intro d s h
+    rcases List.mem_cons.1 h with h | h
+    · exact ⟨op, by simp, by rw [h]⟩
+    · obtain ⟨o, ho, he⟩ := ih h
+      exact ⟨o, by simp [ho], he⟩
+
+/-- C03: the image after every step of such a history is read as a well-formed volume, and the final image is read as
+the final abstract volume -/
+theorem fat_states_well_formed {d : Disk} (h : Inv d) {ops : List FOp} (ha : Admissible d ops) :
+    (∀ s ∈ ftrace d ops, s.post.wfB = true) ∧ readT (ffinal d ops).raw = .ok (volOf (ffinal d ops)) ∧
+      (volOf (ffinal d ops)).wfB = true ∧ (volOf (ffinal d ops)).noLeak = true := by
+  obtain ⟨hv, hfin, _⟩ := history_refines ops h ha
+  exact ⟨C03.every_state_well_formed hv, (inv_reads_well_formed hfin).1, (inv_reads_well_formed hfin).2.1, (inv_reads_well_formed hfin).2.2⟩
+
+/-- C05: the listing after the history is the fold of the history over the initial listing; names are unique -/
+theorem fat_listing_is_history_fold {d : Disk} (h : Inv d) {ops : List FOp} (ha : Admissible d ops) (q : Bytes) :
+    (q ∈ (volOf (ffinal d ops)).paths ↔ q ∈ foldPaths (volOf d).paths (ftrace d ops)) ∧ (volOf (ffinal d ops)).paths.Nodup := by
+  obtain ⟨hv, hfin, heq⟩ := history_refines ops h ha
+  have := C05.listing_is_history_fold' hv q
+  rw [heq] at this
+  exact ⟨this, wfB_paths_nodup (inv_reads_well_formed hfin).2.1⟩
+
+/-- C02: a file that no operation of the history names — accepted or refused — is read bit for bit identical (content,
+length, attribute byte, clusters) from the final image -/
+theorem fat_bystanders_survive {d : Disk} (h : Inv d) {ops : List FOp} (ha : Admissible d ops) {q : Bytes} {f : FileRec}
+    (hq : ∀ op ∈ ops, q ∉ op.abs.targets) (hf : (volOf d).lookup q = some f) (hd : f.isDir = false) :
+    (volOf (ffinal d ops)).lookup q = some f := by
+  obtain ⟨hv, _, heq⟩ := history_refines ops h ha
+  rw [← heq]
+  refine C02.bystanders_survive_history hv ?_ hf hd
+  intro s hs
+  obtain ⟨op, hop, he⟩ := mem_ftrace ops hs
+  rw [he]; exact hq op hop
+
+/-- C01: what an accepted `put` stored is what the reader finds — right after it and after any further history that does
+not name the path: chunk for chunk (each stored chunk is the beginning of the cluster read back), same length -/
+theorem fat_get_returns_last_put {d : Disk} (h : Inv d) {fi : FImg} {now : Stamp} (hs : (FOp.put fi now).StaticOk)
+    (hok : ((FOp.put fi now).run d).1 = true) {ops : List FOp} (ha : Admissible ((FOp.put fi now).run d).2 ops)
+    (hq : ∀ op ∈ ops, absPath fi.fullPath ∉ op.abs.targets) :
+    ∃ f, (volOf (ffinal ((FOp.put fi now).run d).2 ops)).lookup (absPath fi.fullPath) = some f ∧
+      chunksMatch (chunksOf fi) f.chunks = true ∧ f.eof = le32 fi.eof 0 ∧ f.isDir = false := by
+  have hargs : (FOp.put fi now).ArgOk d := ⟨hs, fun p hp => by cases hp⟩
+  obtain ⟨inv1, hstep⟩ := fop_step h (.put fi now) hargs
+  rw [hok] at hstep
+  obtain ⟨hv, _, heq⟩ := history_refines ops inv1 ha
+  have hq' : ∀ s ∈ ftrace ((FOp.put fi now).run d).2 ops, absPath fi.fullPath ∉ s.op.targets := by
+    intro s hs'
+    obtain ⟨op, hop, he⟩ := mem_ftrace ops hs'
+    rw [he]; exact hq op hop
+  obtain ⟨f, hf, _, hc, he, hd, _⟩ := C01.get_returns_last_put hstep hv hq'
+  rw [heq] at hf
+  exact ⟨f, hf, hc, he, hd⟩
+
+/-- C04: in every state of such a history free + owned clusters = all usable clusters (FAT has no system units among the
+clusters), and `stat().free_blocks` of the model is the number of free clusters of the reading -/
+theorem fat_free_accounting {d : Disk} (h : Inv d) {ops : List FOp} (ha : Admissible d ops) :
+    (volOf (ffinal d ops)).free + (volOf (ffinal d ops)).allOwned.length = (volOf (ffinal d ops)).hi - (volOf (ffinal d ops)).lo ∧
+    statFree (ffinal d ops) = (.ok (volOf (ffinal d ops)).free, ffinal d ops) := by
+  obtain ⟨_, hfin, _⟩ := history_refines ops h ha
+  obtain ⟨hread, hwf, hnl⟩ := inv_reads_well_formed hfin
+  obtain ⟨f, c⟩ := hfin.coh
+  have hsys : (volOf (ffinal d ops)).sys = [] := by
+    rw [readT_eq hfin.geo c, readFrom_iff] at hread
+    obtain ⟨R, _, hv⟩ := hread
+    rw [hv]; rfl
+  have := C04.free_accounting hwf hnl (by rw [hsys]; simp)
+  rw [hsys] at this
+  exact ⟨by simpa using this, statFree_is_reading hfin⟩
+
+/-- C19: a read-only file cannot be deleted, renamed or overwritten until it is unlocked: along any such history in which
+nobody locks, unlocks or retypes `q`, the protected file `q` is found identical at the end, and every `delete`, `rename`
+and `put` that named it was refused — as the code does (`delete` and `rename` test the read-only bit, `put` refuses the
+duplicate name) -/
+theorem fat_protected_file_survives {d : Disk} (h : Inv d) {ops : List FOp} (ha : Admissible d ops) {q : Bytes} {f : FileRec}
+    (hf : (volOf d).lookup q = some f) (hl : f.locked = true) (hd : f.isDir = false)
+    (hop : ∀ op ∈ ops, op.abs ≠ .lock q ∧ op.abs ≠ .unlock q ∧ op.abs ≠ .retype q) :
+    (volOf (ffinal d ops)).lookup q = some f ∧
+    ∀ s ∈ ftrace d ops, (s.op = .delete q ∨ (∃ r, s.op = .rename q r) ∨ (∃ cs e t a, s.op = .put q cs e t a)) → s.ok = false := by
+  obtain ⟨hv, _, heq⟩ := history_refines ops h ha
+  have hop' : ∀ s ∈ ftrace d ops, s.op ≠ .lock q ∧ s.op ≠ .unlock q ∧ s.op ≠ .retype q := by
+    intro s hs
+    obtain ⟨op, ho, he⟩ := mem_ftrace ops hs
+    rw [he]; exact hop op ho
+  refine ⟨?_, C19.attempts_on_protected_file_refused hv hf hl hd hop'⟩
+  rw [← heq]
+  exact C19.protected_file_survives hv hf hl hd hop'
+
+/-! ## non-vacuity: states built by the model itself, and a history on them, checked in the kernel -/
+
+theorem exDisk0_flat : Flat exDisk0 := by
+  intro rec hr
+  rw [exDisk0_empty] at hr
+  cases hr
+
+/-- the hypotheses of `put_step` (and of `fop_step` for a `put`) are satisfiable: the formatted example volume and the file
+image that `exDisk` is built with -/
+theorem exPut_static : (FOp.put exFile exStamp).StaticOk := ⟨exFile_arg, exStamp_ok, exFile_putArg⟩
+
+example : Inv exDisk0 ∧ RootArg exFile.fullPath ∧ StampOk exStamp ∧ PutArg exFile := ⟨exDisk0_inv, exPut_static⟩
+
+theorem FOp.run_put (d : Disk) (fi : FImg) (now : Stamp) : ((FOp.put fi now).run d).2 = (runFlush (Fs.Fat.put fi now) d).2 := rfl
 
 theorem exDisk_flat : Flat exDisk := by
-  have h : (volOf exDisk).files.all (fun r => !r.isDir) = true := by decide +kernel
-  intro rec hr
-  have := List.all_eq_true.mp h rec hr
-  simpa using this
+  have h := fop_keeps_flat exDisk0_inv exDisk0_flat (.put exFile exStamp) exPut_static
+  rw [FOp.run_put] at h
+  unfold exDisk
+  exact h
 
 def exName : Bytes := [65, 46, 66]
 def exMissing : Bytes := [90, 90]
@@ -294,13 +828,6 @@ theorem exMissing_arg : RootArg exMissing :=
   { ne := by decide, noSlash := by decide, noStar := by decide, noQ := by decide, len := by decide }
 
 def exOps : List Op := [.lock exName, .unlock exMissing, .delete exName, .unlock exName, .delete exName, .delete exName]
-
-/-- the example history really locks, refuses, unlocks (the theorems are not about refusals only) -/
-example : (trace exDisk exOps).map (·.ok) = [true, false, false, true, true, false] ∧
-    (trace exDisk exOps).map (fun s => (s.post.lookup (absPath exName)).map (·.locked)) =
-      [some true, some true, some true, some false, none, none] ∧
-    (trace exDisk exOps).map (fun s => s.post.free) = [18, 18, 18, 18, 20, 20] := by
-  decide +kernel
 
 example : validFrom fatParams (volOf exDisk) (trace exDisk exOps) :=
   (attr_history_refines exOps exDisk_inv exDisk_flat (by
@@ -314,7 +841,49 @@ example : validFrom fatParams (volOf exDisk) (trace exDisk exOps) :=
     · exact exName_arg
     · exact exName_arg)).1
 
-/-- the hypotheses of the acceptance theorem are satisfiable: the `put` that built `exDisk` is an instance -/
+/-- a history of all six operations on the formatted example volume, names in both cases: `put A.B`, `lock a.b`,
+`put A.B` again, `delete A.B`, `rename A.B C.D`, `unlock A.B`, `rename a.b c.d`, `retype C.D sys`, `retype C.D <other>`,
+`delete A.B`, `delete c.d` -/
+def exLower : Bytes := [97, 46, 98]
+def exNew : Bytes := [67, 46, 68]
+def exNewLower : Bytes := [99, 46, 100]
+def exOps2 : List FOp := [.put exFile exStamp, .lock exLower, .put exFile exStamp, .delete exName, .rename exName exNew,
+  .unlock exName, .rename exLower exNewLower, .retype exNew .sys, .retype exNew .other, .delete exName, .delete exNewLower]
+
+/-- the example history really stores, protects, refuses (duplicate, read-only ×2, unknown type, missing), renames,
+retypes and deletes: the theorems are not about refusals only -/
+example : (ftrace exDisk0 exOps2).map (·.ok) = [true, true, false, false, false, true, true, true, false, false, true] := by
+  decide +kernel
+
+/-- the reading after the eighth step (`retype C.D sys`): one file `C.D`, attribute byte archive + system, 18 of 20 clusters free -/
+example : (ftrace exDisk0 exOps2)[7]?.map (fun s => (s.post.paths, s.post.files.map (·.access), s.post.free)) = some ([exNew], [36], 18) := by
+  decide +kernel
+
+theorem exOps2_static : ∀ op ∈ exOps2, op.StaticOk := by
+  have hl : RootArg exLower := { ne := by decide, noSlash := by decide, noStar := by decide, noQ := by decide, len := by decide }
+  have hn : RootArg exNew := { ne := by decide, noSlash := by decide, noStar := by decide, noQ := by decide, len := by decide }
+  have hnl : RootArg exNewLower := { ne := by decide, noSlash := by decide, noStar := by decide, noQ := by decide, len := by decide }
+  intro op hop
+  simp only [exOps2, List.mem_cons, List.mem_nil_iff, or_false] at hop
+  rcases hop with h | h | h | h | h | h | h | h | h | h | h <;> subst h
+  · exact exPut_static
+  · exact hl
+  · exact exPut_static
+  · exact exName_arg
+  · exact exName_arg
+  · exact exName_arg
+  · exact hl
+  · exact hn
+  · exact hn
+  · exact exName_arg
+  · exact hnl
+
+/-- that history is a valid trace of the abstract specification (`history_refines`, no evaluation) -/
+example : validFrom fatParams (volOf exDisk0) (ftrace exDisk0 exOps2) ∧ Inv (ffinal exDisk0 exOps2) :=
+  let h := history_refines exOps2 exDisk0_inv (admissible_of_flat exOps2 exDisk0_inv exDisk0_flat exOps2_static)
+  ⟨h.1, h.2.1⟩
+
+/-- the hypotheses of the acceptance theorem are satisfiable: the `put` that built `exDisk` is accepted -/
 example : ∃ n d', put exFile exStamp exDisk0 = (.ok n, d') := by
   have h : okB (put exFile exStamp exDisk0).1 = true := by decide +kernel
   cases hp : put exFile exStamp exDisk0 with
@@ -323,6 +892,78 @@ example : ∃ n d', put exFile exStamp exDisk0 = (.ok n, d') := by
     cases res with
     | error e => cases h
     | ok n => exact ⟨n, d', rfl⟩
+
+/-! ## sub-directories: the write-back of one entry -/
+
+/-- **`writeback_directory_entry` of a sub-directory entry** (C02; the obligation behind "FAT sub-directory write-back follows
+the cluster chain"): for a state with `Geo` and an open FAT12 buffer, a directory whose clusters `cl` form a link chain from
+`c1`, **every** entry index `idx` of its buffer (in the first, second, third … cluster) and a 32-byte entry `e'`: the
+write-back succeeds, rewrites only the units of the one cluster `cl[idx / entries_per_cluster]`, touches no FAT entry, and
+the directory read afterwards along the chain is the old one with exactly entry `idx` replaced by `e'` -/
+theorem subdir_writeback_exact {d : Disk} {f : Array Nat} (g : Geo d) (w : WOk d f) {c1 : Nat} {cl : List Nat}
+    (h : IsChain f (hiOf d.bpb) c1 cl) (hnd : cl.Nodup) {idx : Nat} (hidx : idx < (dirOfBytes (chainData d cl)).length)
+    {e' : Bytes} (he : e'.length = 32) :
+    ∃ d' c, writebackDirectoryEntry (some c1) idx (dirOfBytes (chainData d cl)) e' d = (.ok (), d') ∧ d'.fat = d.fat ∧ d'.bpb = d.bpb ∧
+      cl[idx / epcOf d.bpb]? = some c ∧
+      (∀ u, u ∉ List.range' (d.bpb.firstClusterSec c) d.bpb.spc → d'.raw.units[u]? = d.raw.units[u]?) ∧
+      dirOfBytes (chainData d' cl) = (dirOfBytes (chainData d cl)).set idx e' := by
+  obtain ⟨r', c, h1, _, _, h4, h5, h6⟩ := writebackSub_spec g w h hnd hidx he
+  exact ⟨{ d with raw := r' }, c, h1, rfl, rfl, h4, h5, h6⟩
+
+/-- non-vacuity, without evaluation: the cluster loop of a three-chunk `put` on the formatted example volume leaves a state
+with `Geo`, an open FAT and a three-cluster link chain (`writeLoop_chain`); read as a directory it has 48 entries, and entry
+40 lies in its third cluster -/
+example : ∃ (d : Disk) (f : Array Nat) (c1 : Nat) (cl : List Nat), Geo d ∧ WOk d f ∧ IsChain f (hiOf d.bpb) c1 cl ∧ cl.Nodup ∧
+    cl.length = 3 ∧ 40 < (dirOfBytes (chainData d cl)).length ∧ 40 / epcOf d.bpb = 2 := by
+  have inv := exDisk0_inv
+  obtain ⟨f, c⟩ := inv.coh
+  have g := inv.geo
+  have w := wok_of g c
+  have hfree : 3 ≤ freeCount exDisk0.bpb f := by
+    have h1 := (format_establishes_inv (vol := [86]) (now := exStamp) exBlank_pre (Or.inl (by decide)) exStamp_ok)
+    obtain ⟨d', hrun, _, _, hfr⟩ := h1
+    have hd : exDisk0 = d' := by unfold exDisk0; rw [hrun]
+    have hs := statFree_is_reading inv
+    unfold statFree at hs
+    rw [M_bind_apply, getRootDir_eq g] at hs
+    simp only [] at hs
+    rw [numFreeBlocks_open w] at hs
+    injection hs with hs _
+    injection hs with hs
+    rw [hs, hd, hfr]
+    have : exBlank.bpb.clusterCountUsable = 20 := by decide +kernel
+    rw [this]; omega
+  let chunks : List (Nat × Bytes) := [(0, [1]), (1, [2]), (2, [3])]
+  obtain ⟨entry', d1, f1, cl, hrun, o⟩ := writeLoop_chain chunks 3 0 exDisk0 f [] 0 w g.ulen (hiOf_le g)
+    (by intro k _ hk; have : k = 0 ∨ k = 1 ∨ k = 2 := by omega
+        rcases this with h | h | h <;> subst h <;> rfl) hfree (Or.inl (by omega))
+  obtain ⟨g1, _, _⟩ := geo_of_wrOut g o
+  obtain ⟨c0, rest, hcl⟩ : ∃ c0 rest, cl = c0 :: rest := by
+    cases hc : cl with
+    | nil => have := o.len; rw [hc] at this; simp at this
+    | cons c0 rest => exact ⟨c0, rest, rfl⟩
+  have hchain := (o.chain c0 rest hcl).1
+  have hb : d1.bpb = exDisk0.bpb := o.bpb
+  have hspc : exDisk0.bpb.spc = 1 := by rw [exDisk0_bpb]; decide +kernel
+  have hcl1 : ∀ x ∈ cl, clusInRng d1.bpb x = true := by rw [hb]; exact fun x hx => (o.wasFree x hx).1
+  have hlen := (chainDir_spec g1 hcl1).2.1
+  refine ⟨d1, f1, c0, cl, g1, o.wok, by rw [hb]; exact hchain, o.nodup, o.len, ?_, ?_⟩
+  · rw [hlen, o.len]; unfold epcOf; rw [hb, hspc]; omega
+  · unfold epcOf; rw [hb, hspc]
+
+/-! ## the code as written leaks clusters when it refuses a file image with a hole -/
+
+/-- a file image whose chunk 1 is missing (`end` = 3) -/
+def exHole : FImg := { exFile with fullPath := [72], chunks := [(0, [1]), (2, [2])], eof := [0, 0, 0, 0] }
+
+/-- `PutArg.noHole` cannot be dropped: `put` of the file image with a hole is refused (`WriteFault`) only after the
+cluster loop has taken a cluster for chunk 0; the flushed image lists no file, has one free cluster less, and the reading
+is no longer leak free — the invariant is lost by a *refused* operation.  Same on the real code (180K volume: free 339 →
+337 with chunks 0, 1, 3); the repaired `put` refuses before anything is written (`putRepaired_step`: the invariant is kept) -/
+example : okB (runFlush (put exHole exStamp) exDisk0).1 = false ∧ exDisk0.bpb.clusterCountUsable = 20 ∧
+    (fun v : Vol => (v.files, v.free, v.noLeak)) (volOf (runFlush (put exHole exStamp) exDisk0).2) = ([], 19, false) ∧
+    okB (runFlush (putRepaired exHole exStamp) exDisk0).1 = false := by
+  decide +kernel
 
 /-! ## the code as written (label entries in the map of files) does **not** refine the specification -/
 
